@@ -62,81 +62,78 @@ def uncompletedPure (c : Cfg) (s : State) : List OpRef :=
 
 def clearCache (s : State) : State := { s with cache := {} }
 
-def qRawReady (c : Cfg) (s : State) : List OpRef × State :=
-  match s.cache.rawReady with
-  | some v => (v, s)
-  | none => let v := rawReady c.I s; (v, { s with cache := { s.cache with rawReady := some v } })
+/-- one slot of the memo table (`cache_key = method.__name__`) -/
+structure Slot (α : Type) where
+  get : Cache → Option α
+  set : Cache → α → Cache
 
-def qAvailable (c : Cfg) (s : State) : List OpRef × State :=
-  match s.cache.available with
+/-- the `_dispatcher_cache` decorator: return the stored result if there is one, otherwise run the
+body and store its result -/
+def memo {α} (sl : Slot α) (body : State → α × State) (s : State) : α × State :=
+  match sl.get s.cache with
   | some v => (v, s)
-  | none =>
-    let (raw, s1) := qRawReady c s
-    let v := applyCfg c.I s1 c.F raw
-    (v, { s1 with cache := { s1.cache with available := some v } })
+  | none => let r := body s; (r.1, { r.2 with cache := sl.set r.2.cache r.1 })
 
-def qCurrentTime (c : Cfg) (s : State) : Int × State :=
-  match s.cache.currentTime with
-  | some v => (v, s)
-  | none =>
-    let (av, s1) := qAvailable c s
-    let v := minStart c.I s1 av
-    (v, { s1 with cache := { s1.cache with currentTime := some v } })
+def slotCurrentTime : Slot Int := ⟨(·.currentTime), fun k v => { k with currentTime := some v }⟩
+def slotAvailable : Slot (List OpRef) := ⟨(·.available), fun k v => { k with available := some v }⟩
+def slotRawReady : Slot (List OpRef) := ⟨(·.rawReady), fun k v => { k with rawReady := some v }⟩
+def slotUnscheduled : Slot (List OpRef) := ⟨(·.unscheduled), fun k v => { k with unscheduled := some v }⟩
+def slotScheduled : Slot (List OpRef) := ⟨(·.scheduled), fun k v => { k with scheduled := some v }⟩
+def slotAvailableMachines : Slot (List Nat) :=
+  ⟨(·.availableMachines), fun k v => { k with availableMachines := some v }⟩
+def slotAvailableJobs : Slot (List Nat) := ⟨(·.availableJobs), fun k v => { k with availableJobs := some v }⟩
+def slotCompleted : Slot (List OpRef) := ⟨(·.completed), fun k v => { k with completed := some v }⟩
+def slotUncompleted : Slot (List OpRef) := ⟨(·.uncompleted), fun k v => { k with uncompleted := some v }⟩
+def slotOngoing : Slot (List SOp) := ⟨(·.ongoing), fun k v => { k with ongoing := some v }⟩
 
-def qUnscheduled (c : Cfg) (s : State) : List OpRef × State :=
-  match s.cache.unscheduled with
-  | some v => (v, s)
-  | none => let v := unscheduledPure c.I s; (v, { s with cache := { s.cache with unscheduled := some v } })
+def qRawReady (c : Cfg) : State → List OpRef × State :=
+  memo slotRawReady fun s => (rawReady c.I s, s)
 
-def qScheduled (c : Cfg) (s : State) : List OpRef × State :=
-  match s.cache.scheduled with
-  | some v => (v, s)
-  | none => let v := scheduledPure c.I s; (v, { s with cache := { s.cache with scheduled := some v } })
+def qAvailable (c : Cfg) : State → List OpRef × State :=
+  memo slotAvailable fun s =>
+    let r := qRawReady c s
+    (applyCfg c.I r.2 c.F r.1, r.2)
 
-def qAvailableMachines (c : Cfg) (s : State) : List Nat × State :=
-  match s.cache.availableMachines with
-  | some v => (v, s)
-  | none =>
-    let (av, s1) := qAvailable c s
-    let v := sortDedup (av.flatMap fun r => match getOp c.I r.1 r.2 with
-      | some op => op.machines | none => [])
-    (v, { s1 with cache := { s1.cache with availableMachines := some v } })
+def qCurrentTime (c : Cfg) : State → Int × State :=
+  memo slotCurrentTime fun s =>
+    let r := qAvailable c s
+    (minStart c.I r.2 r.1, r.2)
 
-def qAvailableJobs (c : Cfg) (s : State) : List Nat × State :=
-  match s.cache.availableJobs with
-  | some v => (v, s)
-  | none =>
-    let (av, s1) := qAvailable c s
-    let v := sortDedup (av.map (·.1))
-    (v, { s1 with cache := { s1.cache with availableJobs := some v } })
+def qUnscheduled (c : Cfg) : State → List OpRef × State :=
+  memo slotUnscheduled fun s => (unscheduledPure c.I s, s)
 
-def qOngoing (c : Cfg) (s : State) : List SOp × State :=
-  match s.cache.ongoing with
-  | some v => (v, s)
-  | none =>
-    let (t, s1) := qCurrentTime c s
-    let v := ongoingAt s1 t
-    (v, { s1 with cache := { s1.cache with ongoing := some v } })
+def qScheduled (c : Cfg) : State → List OpRef × State :=
+  memo slotScheduled fun s => (scheduledPure c.I s, s)
 
-def qCompleted (c : Cfg) (s : State) : List OpRef × State :=
-  match s.cache.completed with
-  | some v => (v, s)
-  | none =>
-    let (sc, s1) := qScheduled c s
-    let (og, s2) := qOngoing c s1
-    let ogr := og.map fun x => (x.job, x.pos)
-    let v := sortRefs c.I (sc.filter fun r => !ogr.contains r)
-    (v, { s2 with cache := { s2.cache with completed := some v } })
+def qAvailableMachines (c : Cfg) : State → List Nat × State :=
+  memo slotAvailableMachines fun s =>
+    let r := qAvailable c s
+    (sortDedup (r.1.flatMap fun x => match getOp c.I x.1 x.2 with
+      | some op => op.machines | none => []), r.2)
+
+def qAvailableJobs (c : Cfg) : State → List Nat × State :=
+  memo slotAvailableJobs fun s =>
+    let r := qAvailable c s
+    (sortDedup (r.1.map (·.1)), r.2)
+
+def qOngoing (c : Cfg) : State → List SOp × State :=
+  memo slotOngoing fun s =>
+    let r := qCurrentTime c s
+    (ongoingAt r.2 r.1, r.2)
+
+def qCompleted (c : Cfg) : State → List OpRef × State :=
+  memo slotCompleted fun s =>
+    let r1 := qScheduled c s
+    let r2 := qOngoing c r1.2
+    let ogr := r2.1.map fun x => (x.job, x.pos)
+    (sortRefs c.I (r1.1.filter fun r => !ogr.contains r), r2.2)
 
 /-- `uncompleted_operations` (after the fix: the cached unscheduled list is copied, not extended). -/
-def qUncompleted (c : Cfg) (s : State) : List OpRef × State :=
-  match s.cache.uncompleted with
-  | some v => (v, s)
-  | none =>
-    let (us, s1) := qUnscheduled c s
-    let (og, s2) := qOngoing c s1
-    let v := us ++ og.map fun x => (x.job, x.pos)
-    (v, { s2 with cache := { s2.cache with uncompleted := some v } })
+def qUncompleted (c : Cfg) : State → List OpRef × State :=
+  memo slotUncompleted fun s =>
+    let r1 := qUnscheduled c s
+    let r2 := qOngoing c r1.2
+    (r1.1 ++ r2.1.map fun x => (x.job, x.pos), r2.2)
 
 /-! ## uncached queries -/
 
